@@ -215,7 +215,7 @@ func init() {
 	{
 		p := &Prop{ID: "C16", Outside: []string{
 			"-format templates, {{json .}} and the problem-matcher regular expression (text/template, encoding/json, regexp on symbolic text): not encodable",
-			"colour escape sequences; non-ASCII display width",
+			"colour escape sequences; the display widths themselves (go-runewidth is taken as given; characters outside the seven of the wide-snippet harness)",
 			"user text longer than the bound at one position; two symbolic positions at once",
 			"messages of the two external-tool rules and of the deprecated-commands rule",
 		}}
@@ -230,12 +230,19 @@ func init() {
 			{Entry: "HarnessC16Key", Args: []int64{1}, Bound: "a symbolic 1-byte key in every mapping", Require: []string{"diagnostic"}},
 			{Entry: "HarnessC16Key", Args: []int64{3}, Bound: "a symbolic 3-byte key in every mapping", Require: []string{"diagnostic"}},
 			{Entry: "HarnessC16Snippet", Args: []int64{4}, Bound: "all printable-ASCII/LF sources of 4 bytes x 64-bit symbolic line and column", Require: []string{"line-found", "caret"}},
+			{Entry: "HarnessC16SnippetWide", Args: []int64{4}, Bound: "source lines of 4 units from {a, space, tab, U+200B, U+3042, U+00E9, U+0301} x 64-bit symbolic column; display widths of the library taken as given", Require: []string{"rendered", "caret"}},
+			{Entry: "HarnessC16Glob", Args: []int64{2, 0}, Bound: "filter-pattern validator messages for every 2-byte pattern", Require: []string{"diagnostic"}},
+			{Entry: "HarnessC16Glob", Args: []int64{3, 0}, Bound: "... every 3-byte pattern", Require: []string{"diagnostic"}},
+			{Entry: "HarnessC16Glob", Args: []int64{5, 1}, Bound: "... every 5-byte pattern over [ ] - \\ ! * ? a b LF CR space /", Require: []string{"diagnostic"}},
 		}
 		p.Thorough = append(append([]HRun{}, p.Quick...),
 			HRun{Entry: "HarnessC16Echo", Args: []int64{3, 0}, Bound: "every scalar replaced by 3 arbitrary bytes", Require: []string{"diagnostic"}},
 			HRun{Entry: "HarnessC16Echo", Args: []int64{3, 1}, Bound: "'@' + 3 arbitrary bytes", Require: []string{"diagnostic"}},
 			HRun{Entry: "HarnessC16Echo", Args: []int64{2, 2}, Bound: "'${{ ' + 2 arbitrary bytes", Require: []string{"diagnostic"}},
 			HRun{Entry: "HarnessC16Snippet", Args: []int64{6}, Bound: "sources of 6 bytes", Require: []string{"line-found", "caret"}},
+			HRun{Entry: "HarnessC16SnippetWide", Args: []int64{5}, Bound: "source lines of 5 units", Require: []string{"rendered", "caret"}},
+			HRun{Entry: "HarnessC16Glob", Args: []int64{4, 0}, Bound: "filter-pattern validator messages for every 4-byte pattern", Require: []string{"diagnostic"}},
+			HRun{Entry: "HarnessC16Glob", Args: []int64{6, 1}, Bound: "... every 6-byte pattern over the 13-character alphabet", Require: []string{"diagnostic"}},
 		)
 		props["C16"] = p
 	}
@@ -280,6 +287,7 @@ func init() {
 			{Entry: "HarnessC15Filter", Args: []int64{4, 1, 2}, Bound: "4 diagnostics x 1 CLI pattern x 2 path configs", Require: []string{"kept", "dropped"}},
 			{Entry: "HarnessC15Filter", Args: []int64{4, 2, 0}, Bound: "4 diagnostics x 2 CLI patterns, no config", Require: []string{"kept", "dropped"}},
 			{Entry: "HarnessC15Cwd", Bound: "working directory in {root, parent, nested, unrelated} x spelling in {absolute, relative, ./relative}", Require: []string{"linted"}},
+			{Entry: "HarnessC15Check", Bound: "LintFile end to end on 3 files (rule diagnostic, text that is not YAML, workflow syntax error) x 3 patterns x given by -ignore or by the paths configuration", Require: []string{"linted", "pattern-matches"}},
 		}
 		p.Thorough = append(append([]HRun{}, p.Quick...),
 			HRun{Entry: "HarnessC15Filter", Args: []int64{6, 2, 2}, Bound: "6 diagnostics x 2 CLI patterns x 2 path configs", Require: []string{"kept", "dropped"}},
